@@ -36,7 +36,14 @@ func (engine) Run(env *core.Env, run int, res *core.Result) *core.Violation {
 		env.J.Begin(c)
 	}
 	r := newRunner(env, res, b, tape, false)
+	traceDir := os.Getenv("VERIF_E4_TRACE") // development aid: the full event log of every run
+	if traceDir != "" {
+		r.verbose, r.traceAll = true, true
+	}
 	r.execute()
+	if traceDir != "" {
+		os.WriteFile(fmt.Sprintf("%s/run%d.trace", traceDir, run), []byte(strings.Join(r.trace, "\n")+"\n"), 0o644)
+	}
 	if env.J != nil {
 		env.J.Done()
 	}
